@@ -29,6 +29,42 @@ class MyStr(str):
     pass
 
 
+class Swallowed(Exception):
+    pass
+
+
+def through_solver(decl, places, en, fn):
+    """the same line evaluated by a real solve of a one-line form: -> stored value; raises what solve() raises"""
+    import configparser
+    from habutax import fields as FL
+    from habutax.form import Form
+    from habutax.inputs import InputStore
+    from habutax.solver import Solver
+
+    class T(Form):
+        form_name = "t"
+        tax_year = 1970
+        description = "one line"
+        long_description = "one line"
+
+        def __init__(self, **kwargs):
+            if decl == "FloatField":
+                f = FL.FloatField("line_x", fn, places=places)
+            elif decl == "EnumField":
+                f = FL.EnumField("line_x", en, fn)
+            else:
+                f = getattr(FL, decl)("line_x", fn)
+            super().__init__(T, [], [f], [], **kwargs)
+
+        def needs_filing(self, values):
+            return False
+    s = Solver(InputStore(configparser.ConfigParser()), [T])
+    s.solve(["t"])
+    if "t.line_x" not in s._v.values:
+        raise Swallowed()
+    return s._v.values["t.line_x"]
+
+
 def cases():
     from habutax import fields as FL
     import habutax.enum as E
@@ -41,8 +77,8 @@ def cases():
             MyInt(5), MyFloat(2.5), MyStr("s"), MyStr("  "), [1], (2,), {"a": 1}, en.taxpayer, en.spouse, E.filing_status.Single, b"bytes", 3 + 0j, float("nan"), float("inf")]
     decls = [("StringField", None), ("BooleanField", None), ("IntegerField", None), ("FloatField", 0), ("FloatField", 2), ("FloatField", 5), ("EnumField", None)]
     out = []
-    for decl, places in decls:
-        for raw in raws:
+    for via, decl, places, raw in [(via, d, p, r) for via in ("field", "solver") for (d, p) in decls for r in raws]:
+        if True:
             fn = (lambda s, i, v, raw=raw: raw)
             if decl == "FloatField":
                 f = FL.FloatField("line_x", fn, places=places)
@@ -54,9 +90,12 @@ def cases():
             declared = f._type
             rec = {"cid": len(out) + 1, "decl": decl, "places": places if places is not None else 0, "rawtype": type(raw).__name__,
                    "rawblank": isinstance(raw, str) and raw.strip() == "", "rawexact": type(raw) is declared,
-                   "outcome": "", "names_line": False, "vtype": "", "isempty": False, "fracdigits": 0, "milli_raw": 0, "scaled_stored": 0, "small": False, "raw": repr(raw)}
+                   "via": via, "outcome": "", "names_line": False, "vtype": "", "isempty": False, "fracdigits": 0, "milli_raw": 0, "scaled_stored": 0, "small": False, "raw": repr(raw)}
             try:
-                v = f.value({}, {})
+                if via == "solver":
+                    v = through_solver(decl, places, en, fn)
+                else:
+                    v = f.value({}, {})
                 rec["outcome"] = "value"
                 rec["vtype"] = "enum" if (decl == "EnumField" and v is not None and type(v) is en) else type(v).__name__
                 empty = {"StringField": "", "BooleanField": False, "IntegerField": 0, "FloatField": 0.0, "EnumField": None}[decl]
@@ -70,6 +109,8 @@ def cases():
             except TypeError as e:
                 rec["outcome"] = "TypeError"
                 rec["names_line"] = "t.line_x" in str(e)
+            except Swallowed:
+                rec["outcome"] = "no value and no error (the solve went on)"
             except Exception as e:     # noqa
                 rec["outcome"] = type(e).__name__
             out.append(rec)
